@@ -8,42 +8,45 @@
 -/
 namespace CbModel.Heap
 
-inductive Val where
-  | int (n : Int)
-  | node (cs : List Val)
+/-- a value tree over an arbitrary type `α` of scalar leaves (integers, strings, doubles, booleans, …) -/
+inductive Val (α : Type) where
+  | leaf (a : α)
+  | node (cs : List (Val α))
   deriving Repr, Inhabited
+
+variable {α : Type}
 
 abbrev Path := List Nat
 
 /-- the subtree at a path; `none` when the path leaves the tree -/
-def get : Path → Val → Option Val
+def get : Path → Val α → Option (Val α)
   | [], v => some v
   | i :: p, .node cs => (cs[i]?).bind (get p)
-  | _ :: _, .int _ => none
+  | _ :: _, .leaf _ => none
 
 /-- replace the subtree at a path (no effect when the path leaves the tree) -/
-def set : Path → Val → Val → Val
+def set : Path → Val α → Val α → Val α
   | [], _, nv => nv
   | i :: p, .node cs, nv => .node (cs.modify i (fun c => set p c nv))
-  | _ :: _, .int n, _ => .int n
+  | _ :: _, .leaf n, _ => .leaf n
 
 mutual
 /-- all scalars of a value, left to right -/
-def flatten : Val → List Int
-  | .int n => [n]
+def flatten : Val α → List α
+  | .leaf n => [n]
   | .node cs => flattenL cs
-def flattenL : List Val → List Int
+def flattenL : List (Val α) → List α
   | [] => []
   | c :: cs => flatten c ++ flattenL cs
 end
 
 mutual
 /-- same tree shape (struct / array layout), scalars may differ -/
-def sameShape : Val → Val → Bool
-  | .int _, .int _ => true
+def sameShape : Val α → Val α → Bool
+  | .leaf _, .leaf _ => true
   | .node as, .node bs => sameShapeL as bs
   | _, _ => false
-def sameShapeL : List Val → List Val → Bool
+def sameShapeL : List (Val α) → List (Val α) → Bool
   | [], [] => true
   | a :: as, b :: bs => sameShape a b && sameShapeL as bs
   | _, _ => false
@@ -55,8 +58,8 @@ def Disjoint : Path → Path → Prop
   | _, [] => False
   | i :: p, j :: q => i ≠ j ∨ Disjoint p q
 
-structure St where
-  root : Val
+structure St (α : Type) where
+  root : Val α
   ptrs : List Path          -- pointer k points to the cell at ptrs[k]
   deriving Repr, Inhabited
 
@@ -66,50 +69,56 @@ inductive Acc where
   | via (k : Nat) (sub : Path)      -- p->x, *q, r.x (reference parameter), self.x, a[i] (array parameter)
   deriving Repr, Inhabited
 
-def resolve (s : St) : Acc → Option Path
+def resolve (s : St α) : Acc → Option Path
   | .direct p => some p
   | .via k sub => (s.ptrs[k]?).map (· ++ sub)
 
-def read (s : St) (a : Acc) : Option Val := (resolve s a).bind (fun p => get p s.root)
+def read (s : St α) (a : Acc) : Option (Val α) := (resolve s a).bind (fun p => get p s.root)
 
 /-- a store of a scalar through an access path -/
-def write (s : St) (a : Acc) (n : Int) : St :=
+def write (s : St α) (a : Acc) (v : α) : St α :=
   match resolve s a with
-  | some p => { s with root := set p s.root (.int n) }
+  | some p => { s with root := set p s.root (.leaf v) }
   | none => s
 
 /-- `dst = src` for structs / arrays (also parameter passing by value and return: the destination is the
     parameter / the assigned variable) -/
-def copy (s : St) (dst src : Acc) : St :=
+def copy (s : St α) (dst src : Acc) : St α :=
   match resolve s dst, read s src with
   | some p, some v => { s with root := set p s.root v }
   | _, _ => s
 
-/-- `x = x + n` through an access path (a method that updates a member of self and returns it) -/
-def addTo (s : St) (a : Acc) (n : Int) : St :=
+/-- in-place update `x = f x` of a scalar through an access path: reads the leaf at `a` and writes `f` of it
+    (no effect when `a` does not resolve to a leaf) -/
+def modify (s : St α) (a : Acc) (f : α → α) : St α :=
   match read s a with
-  | some (.int m) => write s a (m + n)
+  | some (.leaf m) => write s a (f m)
   | _ => s
 
+/-- `x = x + n` through an access path (a method that updates a member of self and returns it): the integer
+    instance of `modify` -/
+def addTo (s : St Int) (a : Acc) (n : Int) : St Int := modify s a (· + n)
+
 /-- `p = &x` -/
-def reseat (s : St) (k : Nat) (a : Acc) : St :=
+def reseat (s : St α) (k : Nat) (a : Acc) : St α :=
   match resolve s a with
   | some p => { s with ptrs := s.ptrs.set k p }
   | none => s
 
-inductive Op where
-  | write (a : Acc) (n : Int)
+inductive Op (α : Type) where
+  | write (a : Acc) (v : α)
   | copy (dst src : Acc)
   | reseat (k : Nat) (a : Acc)
-  | add (a : Acc) (n : Int)
+  | upd (a : Acc) (f : α → α)    -- in-place update `x = f x` (for integers `x = x + n` is `upd a (· + n)`)
   | nop                          -- a by-value call: the callee works on its own copy
-  deriving Repr, Inhabited
 
-def step (s : St) : Op → St
-  | .write a n => write s a n
+instance : Inhabited (Op α) := ⟨.nop⟩
+
+def step (s : St α) : Op α → St α
+  | .write a v => write s a v
   | .copy d c => copy s d c
   | .reseat k a => reseat s k a
-  | .add a n => addTo s a n
+  | .upd a f => modify s a f
   | .nop => s
 
 end CbModel.Heap
